@@ -313,3 +313,34 @@ func TestC12Live(t *testing.T) {
 		stats.Case(fmt.Sprint(l, npeers), labels["forged-block"] || labels["burst-while-loop-busy"], l...)
 	})
 }
+
+// Metadata large enough that the bencoded header of a block message grows
+// past its usual size (three-digit block indexes with a seven-digit total
+// size; two-digit indexes with an eight-digit one): every authentic block
+// travels through the real wire codec and the magnet must complete.
+func TestC12LargeMetadataLive(t *testing.T) {
+	sim.Init()
+	for _, pad := range []int{1_700_000, 10_100_000} {
+		sp := infoSpec{npieces: 1000, pad: pad}
+		var fail string
+		var labels map[string]bool
+		leak := sim.Bubble(t, func() {
+			fail, labels, _ = runLive(sp, 2, []liveStep{{Kind: "authentic", P: 0, Index: 3}, {Kind: "forged", P: 1, Index: 1, How: "flip"}})
+		})
+		if fail != "" {
+			if len(fail) > 1500 {
+				fail = fail[:1500] + " ..."
+			}
+			t.Fatalf("metadata of about %d bytes: %s", pad, fail)
+		}
+		if leak != "" {
+			t.Fatalf("goroutines left behind: %s", leak)
+		}
+		var l []string
+		for k := range labels {
+			l = append(l, "live:"+k)
+		}
+		sort.Strings(l)
+		stats.Case(fmt.Sprintf("large-metadata/%d", pad), true, append(l, "live:large-metadata-over-the-wire")...)
+	}
+}
